@@ -19,7 +19,8 @@ import time
 
 VERIF = os.path.dirname(os.path.dirname(os.path.abspath(__file__)))
 REPO = os.environ.get("VERIF_REPO", "/repo")
-BUILD = os.path.join(VERIF, ".build")
+BUILD = os.environ.get("VERIF_BUILD", os.path.join(VERIF, ".build"))
+OUT = os.environ.get("VERIF_OUT", VERIF)      # evidence/ and replays/ (only my seeded-change experiments redirect them)
 SPEC = os.path.join(VERIF, "spec")
 NCPU = min(16, os.cpu_count() or 4)
 
@@ -55,6 +56,15 @@ def build_worker(race=False, tags="verif"):
     os.makedirs(BUILD, exist_ok=True)
     out = os.path.join(BUILD, "hvworker" + ("-race" if race else "") + ("-notag" if not tags else ""))
     harness = os.path.join(VERIF, "harness")
+    if REPO != "/repo":
+        # (my own experiments with seeded changes run against a scratch copy of the repository: VERIF_REPO / VERIF_BUILD;
+        # the registered checks never set them)
+        alt = os.path.join(BUILD, "harness")
+        shutil.rmtree(alt, ignore_errors=True)
+        shutil.copytree(harness, alt)
+        gm = open(os.path.join(alt, "go.mod")).read().replace("=> /repo", "=> " + REPO)
+        open(os.path.join(alt, "go.mod"), "w").write(gm)
+        harness = alt
     # go.sum must be the repository's (no network to verify anything else)
     try:
         shutil.copyfile(os.path.join(REPO, "go.sum"), os.path.join(harness, "go.sum"))
@@ -449,7 +459,7 @@ class Report:
         self.t0 = time.time()
         self.findings = load_findings(prop)
         import glob as _glob
-        for f in _glob.glob(os.path.join(VERIF, "replays", prop + "-*.json")):
+        for f in _glob.glob(os.path.join(OUT, "replays", prop + "-*.json")):
             try:
                 os.remove(f)
             except OSError:
@@ -497,8 +507,8 @@ class Report:
               "coverage": self.cov, "assumptions": self.assumptions, "wall_s": round(wall, 2),
               "violations": len(self.violations)}
         ev["coverage"]["known_findings_hit"] = {k: v[0] for k, v in self.known_hits.items()}
-        os.makedirs(os.path.join(VERIF, "evidence"), exist_ok=True)
-        with open(os.path.join(VERIF, "evidence", self.prop + ".json"), "w") as fh:
+        os.makedirs(os.path.join(OUT, "evidence"), exist_ok=True)
+        with open(os.path.join(OUT, "evidence", self.prop + ".json"), "w") as fh:
             json.dump(ev, fh, indent=1, sort_keys=True, default=str)
             fh.write("\n")
         for f in self.findings:
@@ -506,7 +516,7 @@ class Report:
                 c, ex = self.known_hits[f["id"]]
                 print("KNOWN-FINDING: property=%s %s: %s (%d cases this run)" % (self.prop, f["id"], f["what"], c))
         if self.violations:
-            os.makedirs(os.path.join(VERIF, "replays"), exist_ok=True)
+            os.makedirs(os.path.join(OUT, "replays"), exist_ok=True)
             # one VIOLATION line (and one replay file) per group of like failures
             groups = {}
             for feat, detail in self.violations:
@@ -518,7 +528,7 @@ class Report:
                     break
                 feat, detail = items[0]
                 h = hashlib.sha1(json.dumps([feat, detail], sort_keys=True, default=str).encode()).hexdigest()[:12]
-                path = os.path.join(VERIF, "replays", "%s-%s.json" % (self.prop, h))
+                path = os.path.join(OUT, "replays", "%s-%s.json" % (self.prop, h))
                 with open(path, "w") as fh:
                     json.dump({"property": self.prop, "features": feat, "detail": detail, "like_cases": len(items),
                                "more": [f for f, _ in items[1:6]],
